@@ -351,6 +351,7 @@ func (p *c18) Exec(t *testing.T, scAny any) Outcome {
 		return out
 	}
 	out.Evals = 2
+	out.Digest = hashKey(string(a))
 	if !bytes.Equal(a, b) {
 		at := firstDiff(a, b)
 		out.violate("C18:chunking-dependent:"+encAt(a, at), "the same content rendered under two chunkings differs at byte %d: %q vs %q", at, ctx(a, at), ctx(b, at))
